@@ -95,7 +95,8 @@ type Options struct {
 	StmtsPer  int
 	NoDefer   bool
 	NoGoto    bool
-	BoxStruct bool // allow struct/array values boxed in interfaces and mutated afterwards
+	BoxStruct bool     // allow struct/array values boxed in interfaces and mutated afterwards
+	ExtraMain []string // additional case functions (defined in extra files) run from main
 }
 
 func (g *Gen) r() int { return g.U.r.Int() }
